@@ -44,6 +44,27 @@ CHECKS["C12"] = dict(
     design="8/C12", technique="TLA+ fast-path transcription vs general reference in TLC; rstr.c vs rset.c vs spec (M2)",
     note="Lines are newline-terminated as every caller guarantees; comparisons with a fired depth counter are discarded.")
 
+CHECKS["C16"] = dict(
+    level="model_checking",
+    text="Utf8.tla defines every helper declaratively over code points and transcribes uc.c over bytes; TLC checks "
+         "Laws (agreement, next/prev and offset round trips, substring concatenation) on every string up to a length "
+         "over a boundary alphabet and writes the expected result of every helper at every offset, which ucprobe.c "
+         "compares with uc_*; a dump of uc_len/uc_code/regex decoding for the scalar values is validated by TLC.",
+    design="8/C16", technique="TLA+ model of UTF-8 arithmetic checked by TLC; case tables and dumps bound to uc.c (M2)",
+    note="Quick tier covers boundary and strided code points, thorough all 1.1 M. The editing clause is checked by the "
+         "scalar-value invariant of Gen_Ex!Thm plus the text comparison of C06/C14/C15 on multi-byte scripts.")
+for _p, _t in (("C06", "line commands and addresses"), ("C14", "substitute"), ("C15", "global")):
+    CHECKS[_p] = dict(
+        level="model_checking",
+        text="Ex.tla gives every ex command one meaning (ExStep) over abstract text; Gen_Ex.tla builds seeded scripts "
+             "command by command from the model state (profile: %s), TLC evaluates the spec's own properties on every "
+             "line (rejection leaves text alone, one undo step per prompt line incl. a whole global, redo inverse) and "
+             "writes the expected state after every prompt line; the scripts are typed into the traced vi -s -e and text, "
+             "current line, output, registers, marks and status are compared line by line." % _t,
+        design="8/" + _p, technique="TLA+ reference editor (Ex.tla) evaluated by TLC; behaviours replayed into the traced binary (M1)",
+        note="Sampled behaviours (seeded), not exhaustive. Known deviations are recognised only when the recorded state "
+             "equals the operational transcription kept in the spec (Ex!SubCode).")
+
 NOT_YET = {}
 
 def main():
